@@ -27,6 +27,7 @@ HARNESS = {
     '/repo/internal/db/zz_c07_counter_index_test.go': f'{V}/harness/db/zz_c07_counter_index_test.go',
     '/repo/internal/db/zz_c07_array_composite_test.go': f'{V}/harness/db/zz_c07_array_composite_test.go',
     '/repo/internal/db/zz_c07_order_probes_test.go': f'{V}/harness/db/zz_c07_order_probes_test.go',
+    '/repo/internal/db/zz_c07_partial_update_test.go': f'{V}/harness/db/zz_c07_partial_update_test.go',
     '/repo/internal/db/zz_c03_probes_test.go': f'{V}/harness/db/zz_c03_probes_test.go',
     '/repo/internal/db/zz_c20_subscription_test.go': f'{V}/harness/db/zz_c20_subscription_test.go',
     '/repo/internal/db/zz_c09_relation_test.go': f'{V}/harness/db/zz_c09_relation_test.go',
@@ -204,11 +205,11 @@ if prop == 'C07':
             for q in v['problems']:
                 if q.startswith('C07'):
                     probs.append({'history': v['history'], 'step': -1, 'what': q})
-    p5, _ = gotest('^TestGovcC07Order', {}, 300)
+    p5, _ = gotest('^TestGovcC07(Order|PartialUpdate)', {}, 300)
     if p5.returncode != 0:
         msgs = [l.strip() for l in p5.stdout.splitlines() if 'C07:' in l]
         probs.append({'history': 'ordered listing served by an index (composite index with an array field; showDeleted)', 'step': 0, 'what': ' | '.join(msgs)[:900] or (p5.stdout + p5.stderr)[-400:]})
-    bound += '; two ordered-listing probes: order on the first field of a composite index (name, tags[]) returns every document once, showDeleted with order on an indexed field stays ordered'
+    bound += '; two ordered-listing probes: order on the first field of a composite index (name, tags[]) returns every document once, showDeleted with order on an indexed field stays ordered; and an update through the collection API that carries only one field keeps the index entry of another'
     # the filter laws also compare every condition on a collection without indexes, with an index on every
     # field, and with a composite index whose second field is an array (documents identified by a key field)
     p4, res4 = gotest('^TestGovcC08FilterLaws$', {}, 900)
